@@ -1209,6 +1209,9 @@ where
         }
 
         std::mem::swap(args, &mut best_args);
+        // best_args might have been narrowed down to the block it tried to parse, items outside
+        // of it (such as --help) must stay visible to the outer parsers
+        args.set_scope(original_scope);
         Err(Error(best_error))
     }
 
